@@ -682,6 +682,84 @@ def decode_content_flow(prog: Program) -> RuleResult:
         raise AnalysisError("DECODE-CONTENT-FLOW: the unordered decoder was not found")
     return res
 
+
+def result_unconditional(prog: Program) -> RuleResult:
+    res = RuleResult(
+        "RESULT-UNCONDITIONAL",
+        "inside the loops over refinements, root orders and root species of a solver driver, no `continue` / `break` "
+        "/ `return` depends on the result entry collected so far unless the test is a STRICT bound (`bound > "
+        "results.value()`): skipping an alternative that merely ties with the best found drops optimal solutions "
+        "under ALL, and stopping at the first solution under ANY returns whatever refinement happened to come first",
+    )
+    n = 0
+    for mod, modname, qual, fn in _compute_funcs(prog):
+        entries = [
+            st.targets[0].id for st in walk_no_nested(fn)
+            if isinstance(st, (ast.Assign, ast.AnnAssign))
+            and isinstance(getattr(st, "value", None), ast.Call) and dotted(st.value.func) == "Entry"
+            and isinstance((st.targets[0] if isinstance(st, ast.Assign) else st.target), ast.Name)
+            for st in [st]
+        ] if False else []
+        for st in walk_no_nested(fn):
+            tgt = None
+            if isinstance(st, ast.Assign) and len(st.targets) == 1:
+                tgt = st.targets[0]
+            elif isinstance(st, ast.AnnAssign):
+                tgt = st.target
+            if tgt is not None and isinstance(tgt, ast.Name) and isinstance(getattr(st, "value", None), ast.Call) and dotted(st.value.func) == "Entry":
+                entries.append(tgt.id)
+        if not entries:
+            continue
+        loops = [l for l in walk_no_nested(fn) if isinstance(l, ast.For)]
+        if not loops:
+            continue
+        n += 1
+        construct = f"{modname}:{qual}/result-driven-exits"
+        bad = []
+        for node in walk_no_nested(fn):
+            if not isinstance(node, (ast.Continue, ast.Break, ast.Return)):
+                continue
+            if isinstance(node, ast.Return) and not loops_around(fn, node):
+                continue
+            for test, pol in guards(fn, node):
+                reads = [
+                    c for c in ast.walk(test)
+                    if isinstance(c, ast.Call) and isinstance(c.func, ast.Attribute) and dotted(c.func.value) in entries
+                ] + [x for x in ast.walk(test) if isinstance(x, ast.Name) and x.id in entries and not isinstance(mod.parent(x), ast.Attribute)]
+                if not reads:
+                    continue
+                if _strict_bound(test, pol, entries):
+                    continue
+                bad.append((node, test, pol))
+        if bad:
+            node, test, pol = bad[0]
+            res.fail(
+                construct,
+                f"`{type(node).__name__.lower()}` under `{'' if pol else 'not '}{short(test, 70)}` depends on the result entry without being a strict bound: alternatives that tie with the best found so far (or everything after the first hit) are skipped",
+                mod,
+                node,
+            )
+        else:
+            res.ok(construct, f"no exit from the enumeration loops depends on {entries}")
+    res.floor(4)
+    return res
+
+
+def _strict_bound(test: ast.AST, pol: bool, entries: List[str]) -> bool:
+    """`X > results.value()` known true / `X <= results.value()` known false (results MIN entry)."""
+    if not (isinstance(test, ast.Compare) and len(test.ops) == 1):
+        return False
+
+    def is_value(e: ast.AST) -> bool:
+        return isinstance(e, ast.Call) and isinstance(e.func, ast.Attribute) and e.func.attr == "value" and dotted(e.func.value) in entries
+
+    left, op, right = test.left, test.ops[0], test.comparators[0]
+    if is_value(right) and not is_value(left):
+        return (isinstance(op, ast.Gt) and pol) or (isinstance(op, ast.LtE) and not pol)
+    if is_value(left) and not is_value(right):
+        return (isinstance(op, ast.Lt) and pol) or (isinstance(op, ast.GtE) and not pol)
+    return False
+
 # ---------------------------------------------------------------------------
 
 
@@ -1433,5 +1511,6 @@ RULES = {
     "RESULT-SCOPE": result_scope,
     "TRAVERSAL": traversal,
     "EVENT-EXHAUSTIVE": event_exhaustive,
+    "RESULT-UNCONDITIONAL": result_unconditional,
     "DECODE-CONTENT-FLOW": decode_content_flow,
 }
